@@ -78,11 +78,11 @@ class Class:
 
 
 class Module:
-    def __init__(self, name, path, src):
+    def __init__(self, name, path, src, tree=None):
         self.name = name
         self.path = path
         self.src = src
-        self.tree = ast.parse(src, filename=path)
+        self.tree = tree if tree is not None else ast.parse(src, filename=path)
         self.digest = hashlib.sha256(src.encode("utf-8")).hexdigest()
         self.imports = {}     # local name -> dotted
         self.functions = {}   # top-level name -> Func
@@ -130,12 +130,14 @@ class Program:
 
     PKG = "torrentfile"
 
-    def __init__(self, root):
+    def __init__(self, root, normalise=False):
         self.root = os.path.abspath(root)
         self.modules = {}
         self.functions = {}
         self.classes = {}
         self.parent = {}
+        self.normalise = normalise
+        self.dissolved = []       # helpers inlined into their callers (second reading, see tfsa/inline.py)
         self._load()
         self._link()
 
@@ -150,20 +152,35 @@ class Program:
             for fn in sorted(filenames):
                 if fn.endswith(".py"):
                     files.append(os.path.join(dirpath, fn))
+        pre = {}
+        if self.normalise:
+            from . import inline
+            srcs = {}
+            for path in files:
+                rel = os.path.relpath(path, self.root)[:-3].replace(os.sep, ".")
+                if rel.endswith(".__init__"):
+                    rel = rel[: -len(".__init__")]
+                with open(path, encoding="utf-8") as fh:
+                    srcs[rel] = fh.read()
+                try:
+                    pre[rel] = ast.parse(srcs[rel], filename=path)
+                except SyntaxError as exc:
+                    raise AnalysisError("cannot parse %s: %s" % (path, exc))
+            self.dissolved = inline.normalise(pre, inline.protected_names())
         for path in files:
             rel = os.path.relpath(path, self.root)[:-3].replace(os.sep, ".")
             if rel.endswith(".__init__"):
                 rel = rel[: -len(".__init__")]
-            self._add_module(rel, path)
+            self._add_module(rel, path, pre.get(rel))
         script = os.path.join(self.root, "bin", "torrentfile")
         if os.path.isfile(script):
             self._add_module("bin.torrentfile", script)
 
-    def _add_module(self, name, path):
+    def _add_module(self, name, path, tree=None):
         with open(path, encoding="utf-8") as fh:
             src = fh.read()
         try:
-            mod = Module(name, path, src)
+            mod = Module(name, path, src, tree)
         except SyntaxError as exc:
             raise AnalysisError("cannot parse %s: %s" % (path, exc))
         self.modules[name] = mod
